@@ -247,6 +247,11 @@ func (e *Exec) execInstr(f *Frame, b *ssa.BasicBlock, ins ssa.Instruction, st *S
 		dn, ds, _, _ := e.mapNames(m)
 		d := e.comp(st, dn, ds)
 		e.setComp(st, dn, ds, Store(d, r, fmt.Sprintf("((as const (Array %s Bool)) false)", e.reg.sortOf(m.Key()))))
+		{
+			_, _, vn, vs := e.mapNames(m)
+			vv := e.comp(st, vn, vs)
+			e.setComp(st, vn, vs, Store(vv, r, fmt.Sprintf("((as const (Array %s %s)) %s)", e.reg.sortOf(m.Key()), e.reg.sortOf(m.Elem()), e.reg.zero(m.Elem()))))
+		}
 		ln, ls := e.mapLenName(m)
 		l := e.comp(st, ln, ls)
 		e.setComp(st, ln, ls, Store(l, r, "0"))
@@ -283,7 +288,13 @@ func (e *Exec) execInstr(f *Frame, b *ssa.BasicBlock, ins ssa.Instruction, st *S
 	case *ssa.Range:
 		xv := e.val(f, x.X)
 		_, isMap := unalias(xv.T).Underlying().(*types.Map)
-		f.rangeOf[x] = rangeInfo{x: xv, isMap: isMap}
+		ri := rangeInfo{x: xv, isMap: isMap}
+		if isMap {
+			mt := unalias(xv.T).Underlying().(*types.Map)
+			dn, ds, _, _ := e.mapNames(mt)
+			ri.dom0 = e.define(f.prefix+x.Name()+"_dom0", fmt.Sprintf("(Array %s Bool)", e.reg.sortOf(mt.Key())), Select(e.comp(st, dn, ds), xv.Term))
+		}
+		f.rangeOf[x] = ri
 		f.vals[x] = Val{T: x.Type(), Term: "0"}
 		if isMap {
 			// ghost: set of visited keys, reset at Range
@@ -584,6 +595,11 @@ func (e *Exec) execNext(f *Frame, x *ssa.Next, st *State, reach Term) {
 	e.noteKeyTerm(k.Term, e.reg.sortOf(mt.Key()))
 	vn := e.visitedName(f, rng)
 	vis := e.comp(st, vn, e.compSort[vn])
+	// only keys that were in the map when the iteration started have been visited
+	if ri.dom0 != "" {
+		ksq := e.reg.sortOf(mt.Key())
+		e.assume(fmt.Sprintf("(forall ((kq %s)) (! (=> %s %s) :pattern (%s)))", ksq, Select(vis, "kq"), Select(ri.dom0, "kq"), Select(vis, "kq")), "range over map visits only keys of the map")
+	}
 	// ok => k in dom, not visited ; !ok => every key in dom was visited (instantiated lazily by contracts: exposed as a quantified fact)
 	e.assume(Implies(okv.Term, And(e.mapHas(st, mt, ri.x.Term, k.Term), Not(Select(vis, k.Term)))), "")
 	ks := e.reg.sortOf(mt.Key())
@@ -769,12 +785,12 @@ func (e *Exec) skolemizeGoal(goal Term) Term {
 		if t != "(" {
 			pos++
 			if iq, ok := byName[t]; ok && ((iq.forall && polarity > 0) || (!iq.forall && polarity < 0)) {
-				sk := e.fresh("sk", "Int")
+				sk := e.fresh("sk", iq.sort)
 				saved := e.instGen
 				e.instGen = iq.gen + 1
 				inst := iq.inst(sk)
 				e.instGen = saved
-				e.noteIndexTerm(sk)
+				e.noteTermGen(sk, 0, iq.sort)
 				return inst
 			}
 			return t
